@@ -35,6 +35,11 @@ def dim(cls):
     return len(AXES[cls])
 
 
+def periodic_ok(kind):
+    """Axes on which a periodic condition is meaningful: Cartesian/axial and azimuthal."""
+    return kind in ("lin", "azi")
+
+
 def has_radial(cls):
     return AXES[cls][0] == "rad"
 
